@@ -16,6 +16,8 @@ A = {
     "A10": "A10 chrono: Utc::now(), DateTime - DateTime and num_days() are arbitrary values of their types",
     "A11": "A11 Uuid is a 128-bit value with structural equality, nil = 0; to_string/parse_str are uninterpreted injective text",
     "A12": "A12 machine arithmetic: none treated as mathematical — Verus checks every exec + * / for overflow; thresholds in specs are over int",
+    "A14": "A14 clap and the option declaration: `command()` (names, environment variables, delimiters and defaults of the five options), `Command::get_matches` and `ServerArgs::new` (iterator adapters over ArgMatches) are assumed to hand main() the values the operator gave by flag or environment variable; the repository's own tests cover exactly that part, the process leg samples it on the real executable",
+    "A15": "A15 what main()'s contract cannot say: that the App factory closure configures each worker's App with the captured WebServer (its body is checked for types, borrows and call preconditions only), that HttpServer serves on the addresses it was bound to, that SqliteStorage::new keeps its data in the given directory, and that Server::new keeps the storage it is given (parametricity of `ST: Storage`; Verus cannot relate a Box<dyn Storage> to the value it was made from)",
     "A13": "A13 the extractor (rules E1-E13, fidelity-checked every run), Verus 0.2026.09.13, Z3, Kani 0.68/CBMC, and the hand-written executable oracle of the bounded legs",
 }
 
@@ -188,7 +190,15 @@ def replay(path):
         cex = v.get("counterexample", {})
         print("bounded leg %s; recorded failing input:" % leg)
         print(json.dumps(cex, indent=1)[:4000])
-        d = conform_leg(leg, "quick", 0)
+        if leg == "process":
+            import procleg
+            try:
+                d = procleg.run(False, 0)
+            except procleg.Skip as e:
+                print("re-run inconclusive:", e)
+                return 2
+        else:
+            d = conform_leg(leg, "quick", 0)
         vs = [x for x in d.get("violations", []) if prop in x.get("tags", []) or "*" in x.get("tags", [])]
         if vs:
             print("RE-RUN on the real code: the leg fails again, e.g.:")
@@ -265,11 +275,49 @@ def _configure():
         not_reached=[NR_HTTP, "other middleware wrapped by the binary's main() around the whole App (ErrorHandlers, Logger)"],
         explanation="structural obligation cfg.cache on the real WebServer::config: exactly one scope is registered, wrapped by exactly one middleware, a DefaultHeaders adding Cache-Control with a value that forbids storage, and nothing else is wrapped around it; the implication to 'every response' rests on the assumed actix contract; the bounded HTTP leg checks the header on every response it sees (all routes, outcomes, refusals, unknown routes, storage failures)",
         legs=[HTTP, STANDINS])
+    cfg("C17", "other", ["A9", "A14", "A15", "A13"], assumptions=[A["A14"], A["A15"]],
+        not_reached=["flag / environment parsing (clap) and the option declaration command()", "socket binding and serving (actix HttpServer, the OS)", "sqlite/src/lib.rs (where the data directory is used)",
+                     "the App factory closure's effect (which WebServer each worker's App is configured with)", "that the process observed from outside behaves as wired: only the bounded process leg looks at the running executable"],
+        explanation="the wiring in main() -- the only code between parsed options and the running server, and code no test executes -- is under contract: on the real main(), for EVERY value clap can hand over, the ServerConfig is built from exactly the configured snapshot targets, the allow-list and data directory reach WebServer::new / SqliteStorage::new unchanged (wire.server), and the server is started only after being bound to every configured address, in order, and to nothing else (wire.listen, loop invariant over the address list, no bound); below main, cfg.wiring / cfg.allowlist (U3, real WebServer::new) and server.new (U1, real Server::new) carry the configuration into the library handle every request is served with, and h.*.state says no request changes it. 'other', not 'proof': the statement is about a running process; parsing, sockets, SQLite and the factory closure are assumed (A14, A15) and only sampled by the process leg",
+        legs=[PROCESS, STANDINS])
     cfg("C18", "proof", ["A4", "A6", "A11", "A13"], not_reached=[NR_SQL],
         explanation="every non-mutating outcome (reads, conflict, declined snapshot, unknown client, refused request) leaves the whole transaction view / call log equal up to the fault counter",
         legs=[EXPLORE, SQLCONF, XCHECK])
 
 
+def process_leg(prop, tier, seed):
+    import procleg
+    key = repo_hash()[:24]
+    cdir = os.path.join(VERIF, "gen", "cache")
+    os.makedirs(cdir, exist_ok=True)
+    cp = os.path.join(cdir, "leg-process-%s-%s-%s.json" % (tier, seed, key))
+    d = None
+    if os.path.exists(cp) and not os.environ.get("VERIF_NOCACHE"):
+        try:
+            d = json.load(open(cp))
+            d["cached_for_identical_sources"] = True
+        except Exception:
+            d = None
+    if d is None:
+        t0 = time.time()
+        try:
+            d = procleg.run(tier == "thorough", seed)
+        except procleg.Skip as e:
+            raise Inconclusive("process leg: %s" % e)
+        d["wall_s"] = round(time.time() - t0, 2)
+        json.dump(d, open(cp, "w"))
+    vs = d.get("violations", [])
+    rep = {"name": "bounded:process", "bounded": True, "status": "violation" if vs else "passed",
+           "what": "the REAL executable (built from /repo by its own manifest) started with sampled operator configurations given by flag / environment variable, observed over loopback HTTP, with kill -9 and restarts on the same data directory",
+           "wall_s": d.get("wall_s"), "cached_for_identical_sources": d.get("cached_for_identical_sources", False)}
+    for k in ("cases", "configurations", "requests", "bound", "samples"):
+        if k in d:
+            rep[k] = d[k]
+    rep["violations"] = [{"kind": "bounded", "name": "bounded:process", "what": v.get("what", "")[:1500], "counterexample": v} for v in vs[:3]]
+    return rep
+
+
+PROCESS = {"name": "bounded:process", "tiers": ("quick", "thorough"), "run": process_leg, "required": True}
 KANI_URGENCY = {"name": "kani:urgency", "tiers": ("quick", "thorough"), "run": lambda prop, tier, seed: kani_urgency(), "required": False}
 HTTP = bounded("http", "requests through the real actix handlers (in process): outcome encoding compared with the executable contract, body chunkings and sizes, malformed requests, allow-lists, Cache-Control")
 
